@@ -2,17 +2,28 @@ import BufProofs.Lemmas.PathLemmas
 import BufProofs.Lemmas.BucketLemmas
 import BufProofs.Props.C13
 import BufProofs.Lemmas.DiskLemmas
+import BufProofs.Lemmas.ArchiveLemmas
 /-
   C14 — All bucket implementations and combinators behave as one path→bytes map.
 
   The abstract specification is a function `Spec := Key → Option Content`; a key is a list of
-  proper path components.  `abs m` reads a memory bucket as such a function.  The theorems
-  show that every operation of the memory bucket, and of views/composites built on it, is the
-  corresponding operation of the abstract map.  (The disk bucket is tied to the same model by
-  the correspondence run, under the prefix-free hypothesis stated in DESIGN.md.)
+  proper path components.  `abs m` reads a memory bucket as such a function, `absE e bs` reads
+  a composite read bucket (prefix view / filter / union / overlay / external-path-strip over
+  base buckets) as one.
+
+  * memory bucket: `mem_refines_spec` (every history, every path string);
+  * every composite: `walk_get_coherent` (a walk lists exactly what get finds, each once),
+    `walk_lists_exactly_the_map`, the `*_abs` equations, `copy_is_map_union`;
+  * archives: `tar_lists_walked_objects`, `untar_tar`, `untar_tar_strip`, `untar_tar_composite`
+    over the entry-level model BufModel/Archive.lean (byte codecs = library parameter);
+  * disk bucket (file tree): `disk_refines_map` on prefix-free histories;
+  * what the correspondence driver executes for disk-backed composites (`rWalkD`, `copyD`) is
+    tied to `rWalk`/`rCopy` by `walkD_all_memory_is_walk`, `walkD_ok_is_walk`,
+    `copyD_refines_copy`.
+  Pure helper lemmas live in Lemmas/BucketLemmas.lean, ArchiveLemmas.lean, DiskLemmas.lean.
 -/
 namespace BufProofs.C14
-open BufModel.Path BufModel.Bucket
+open BufModel.Path BufModel.Bucket BufModel.Archive
 
 abbrev Spec := Key → Option Content
 
@@ -46,17 +57,10 @@ def memStep (m : Mem) : Op → Mem × Out
   | .walk p => match memWalk m p with
       | .ok l => (m, .objs l) | .error e => (m, .err e)
 
-/-- The path argument as the spec sees it: an error class or a key. -/
-def keyOf (s : Str) : Except PErr Key :=
-  match normalizeAndValidate s with
-  | .ok p => .ok (cleanComps p)
-  | .error e => .error e
-
-theorem keyOf_of_validate {s : Str} {k : Key} (hk : AllProper k)
-    (h : normalizeAndValidate s = .ok (renderKey k)) : keyOf s = .ok k := by
-  unfold keyOf; rw [h]; simp [cleanComps_renderKey hk]
-
-/-- What the abstract map does for each operation (the specification, readable in a minute). -/
+/-- What the abstract map does for each operation (the specification, readable in a minute).
+    `keyOf` (BufModel/Bucket.lean) reads the path argument: an error class, or the key it denotes.
+    A walk result consists of rendered keys only (`KeysRendered`: no junk entries), lists no key
+    twice, and holds exactly the map's entries under the prefix key. -/
 inductive SpecStep : Spec → Op → Spec → Out → Prop where
   | getOk (σ : Spec) (p : Str) (k : Key) (c : Content) :
       keyOf p = .ok k → k ≠ [] → σ k = some c → SpecStep σ (.get p) σ (.content c)
@@ -74,7 +78,7 @@ inductive SpecStep : Spec → Op → Spec → Out → Prop where
       keyOf p = .ok k →
       (∀ k', AllProper k' → σ' k' = if k <+: k' then none else σ k') → SpecStep σ (.deleteAll p) σ' .done
   | walkOk (σ : Spec) (p : Str) (k : Key) (l : List (Str × Content)) :
-      keyOf p = .ok k → NodupKeys l →
+      keyOf p = .ok k → NodupKeys l → KeysRendered l →
       (∀ k' c, AllProper k' → ((renderKey k', c) ∈ l ↔ (k <+: k' ∧ σ k' = some c))) →
       SpecStep σ (.walk p) σ (.objs l)
   | root (σ : Spec) (op : Op) (p : Str) :
@@ -83,28 +87,6 @@ inductive SpecStep : Spec → Op → Spec → Out → Prop where
       keyOf p = .error e →
       (op = .get p ∨ (∃ c, op = .put p c) ∨ op = .delete p ∨ op = .deleteAll p ∨ op = .walk p) →
       SpecStep σ op σ (.err e)
-
-theorem validatePath_cases (s : Str) :
-    (∃ e, normalizeAndValidate s = .error e ∧ validatePath s = .error e) ∨
-    (normalizeAndValidate s = .ok dot ∧ validatePath s = .error .root) ∨
-    (∃ k : Key, AllProper k ∧ k ≠ [] ∧ normalizeAndValidate s = .ok (renderKey k) ∧
-      validatePath s = .ok (renderKey k)) := by
-  unfold validatePath
-  cases hv : normalizeAndValidate s with
-  | error e => exact Or.inl ⟨e, rfl, rfl⟩
-  | ok p =>
-    obtain ⟨k, hk, hp⟩ := BufModel.Path.validate_sound s p hv
-    subst hp
-    by_cases hd : renderKey k = dot
-    · rw [hd]; exact Or.inr (Or.inl ⟨rfl, by simp⟩)
-    · refine Or.inr (Or.inr ⟨k, hk, ?_, rfl, by simp [hd]⟩)
-      intro e; subst e; exact hd renderKey_nil
-
-theorem keyOf_dot {s : Str} (h : normalizeAndValidate s = .ok dot) : keyOf s = .ok [] := by
-  unfold keyOf; rw [h]; decide
-
-theorem keyOf_error {s : Str} {e : PErr} (h : normalizeAndValidate s = .error e) : keyOf s = .error e := by
-  unfold keyOf; rw [h]
 
 /-- mem_refines_spec (one step): every step of the memory bucket, on ANY path string, is a step
     of the abstract map with the same output, and the invariants are kept. -/
@@ -184,8 +166,10 @@ theorem mem_refines_spec_step (m : Mem) (hv : KeysValid m) (hn : NodupKeys m) (o
       | error e' => rw [hnv] at hw; injection hw with hw; subst hw; exact keyOf_error hnv
       | ok q => rw [hnv] at hw; cases hw
     | ok l =>
-      obtain ⟨kq, hkq, hnv, hnd, hall⟩ := memWalk_exact m hv hn p l hw
-      exact ⟨.walkOk _ p kq l (keyOf_of_validate hkq hnv) hnd hall, hv, hn⟩
+      obtain ⟨kq, hkq, hnv, hnd, hrend, hall⟩ :=
+        vWalk_pre_exact [] trivial trivial m hv hn p l (by simpa only [List.map, vWalk] using hw)
+      exact ⟨.walkOk _ p kq l (keyOf_of_validate hkq hnv) hnd hrend
+        (fun k' c hk' => by simpa only [fullKey, List.nil_append, abs] using hall k' c hk'), hv, hn⟩
 
 /-- Run a whole history. -/
 def memRun (m : Mem) : List Op → Mem × List Out
@@ -323,45 +307,358 @@ theorem overlay_falls_through (a b : BExpr) (bs : Bases) (path : Str)
     (ha : rGet a bs path = .error .notExist) : rGet (.overlay a b) bs path = rGet b bs path := by
   simp [rGet, ha]
 
-/-- untar_tar / copy: copying a bucket (storage.Copy, or Tar followed by Untar, or Zip followed
-    by Unzip) into another bucket makes the target equal, as a map, to the source overlaid on
-    the old target; into an empty target it reproduces the source exactly. -/
-theorem copy_is_map_union (src dst : Mem) (hv : KeysValid src) (hn : NodupKeys src) :
-    ∃ n bs', rCopy (.base 0) [src, dst] 1 = .ok (n, bs') ∧ n = src.length ∧
-      ∀ k : Key, AllProper k →
-        abs (bs'.get 1) k = (match abs src k with | some c => some c | none => abs dst k) := by
-  have hw : rWalk (.base 0) [src, dst] [] = .ok src := by
-    have : memWalk src [] = .ok (src.filter fun kv => equalsOrContainsPath dot kv.1) := by
-      unfold memWalk validatePrefix
-      have : normalizeAndValidate [] = .ok dot := by decide
-      rw [this]
-    simp only [rWalk, Bases.get, List.getD_cons_zero]
-    rw [this]
-    congr 1
-    apply List.filter_eq_self.mpr
-    intro kv _; simp [equalsOrContainsPath]
-  obtain ⟨m', hm', hfind⟩ := putAll_spec src hv hn dst
-  refine ⟨src.length, Bases.set [src, dst] 1 m', ?_, rfl, ?_⟩
-  · simp only [rCopy, hw]
-    have : Bases.get [src, dst] 1 = dst := by simp [Bases.get]
-    rw [this, hm']
-  · intro k hk
-    have hget : Bases.get (Bases.set [src, dst] 1 m') 1 = m' := by
-      simp [Bases.set, Bases.get, List.range, List.range.loop]
-    rw [hget]
-    unfold abs
-    exact hfind (renderKey k)
+/-! ### Every composite read bucket behaves as ONE path→bytes map -/
 
-theorem untar_tar (src : Mem) (hv : KeysValid src) (hn : NodupKeys src) :
-    ∃ n bs', rCopy (.base 0) [src, []] 1 = .ok (n, bs') ∧
-      ∀ k : Key, AllProper k → abs (bs'.get 1) k = abs src k := by
-  obtain ⟨n, bs', h, _, hall⟩ := copy_is_map_union src [] hv hn
-  refine ⟨n, bs', h, ?_⟩
-  intro k hk
-  rw [hall k hk]
-  cases habs : abs src k with
+/-- walk_get_coherent (audit S2): for EVERY composite read bucket `e` — any nesting of prefix
+    views, filtered views, unions, overlays and external-path-strips over base buckets — a
+    successful walk visits exactly the paths a get would find, with the same contents, each once.
+    Hypotheses: every `MapOnPrefix` prefix is a normalised validated path (`e.WF`, the documented
+    precondition of `MapOnPrefix`), and the base buckets satisfy the memory-bucket invariants
+    (`BasesOK`, preserved by every operation: `mem_refines_spec`).  Then, if
+    `Walk(pfx) = ok objs`, with `kq` the key `pfx` denotes:
+      (a) every listed `(k, c)` is a rendered key `kk` under `kq`, and `Get(k) = ok c`
+          provided `kk ≠ []`;
+      (b) every non-root key under `kq` with `Get = ok c` is listed with `c`;
+      (c) no key is listed twice;
+      (d) below the prefix `Get` is `ok` or `not-exist` — no other error.
+    The proviso `kk ≠ []` in (a) is the weakest possible: as coded, a prefix view rooted exactly
+    AT a stored object path lists that object under the path "." (`prefixMapper.UnmapFullPath`
+    returns `Rel(p, p) = "."`), and `Get(".")` is rejected ("cannot get root",
+    `walk_lists_root_object_counterexample`).  No hypothesis excludes that state: the theorem
+    covers it and says precisely that "." is the only listed path a get does not serve. -/
+theorem walk_get_coherent (e : BExpr) (he : e.WF) (bs : Bases) (hbs : BasesOK bs) (pfx : Str)
+    (objs : List (Str × Content)) (h : rWalk e bs pfx = .ok objs) :
+    ∃ kq : Key, AllProper kq ∧ normalizeAndValidate pfx = .ok (renderKey kq) ∧
+      (∀ kc ∈ objs, ∃ kk : Key, AllProper kk ∧ kc.1 = renderKey kk ∧ kq <+: kk ∧
+          (kk ≠ [] → rGet e bs kc.1 = .ok kc.2)) ∧
+      (∀ (kk : Key) (c : Content), AllProper kk → kk ≠ [] → kq <+: kk →
+          rGet e bs (renderKey kk) = .ok c → (renderKey kk, c) ∈ objs) ∧
+      NodupKeys objs ∧
+      (∀ kk : Key, AllProper kk → kk ≠ [] → kq <+: kk →
+          (∃ c, rGet e bs (renderKey kk) = .ok c) ∨ rGet e bs (renderKey kk) = .error .notExist) := by
+  obtain ⟨kq, hkq, hnv, hc⟩ := rWalk_coherent e he bs hbs pfx objs h
+  refine ⟨kq, hkq, hnv, ?_, hc.complete, hc.nodup, hc.total⟩
+  intro kc hkc
+  obtain ⟨kk, hkk, hk⟩ := hc.rendered kc hkc
+  obtain ⟨h1, h2⟩ := hc.sound kk kc.2 hkk (by rw [← hk]; exact hkc)
+  exact ⟨kk, hkk, hk, h1, fun hne => by rw [hk]; exact h2 hne⟩
+
+/-- The same as an equation between the walk result and the composite read as an abstract map
+    `absE e bs` (what `Get` finds at each key): the walk lists exactly the map's entries under
+    the prefix. -/
+theorem walk_lists_exactly_the_map (e : BExpr) (he : e.WF) (bs : Bases) (hbs : BasesOK bs) (pfx : Str)
+    (objs : List (Str × Content)) (h : rWalk e bs pfx = .ok objs) :
+    ∃ kq : Key, AllProper kq ∧ normalizeAndValidate pfx = .ok (renderKey kq) ∧
+      ∀ (kk : Key) (c : Content), AllProper kk → kk ≠ [] →
+        ((renderKey kk, c) ∈ objs ↔ (kq <+: kk ∧ absE e bs kk = some c)) :=
+  rWalk_lists_absE e he bs hbs pfx objs h
+
+/-- As coded: a prefix view rooted AT an object lists it as "." and cannot get it. -/
+theorem walk_lists_root_object_counterexample :
+    rWalk (.pre "a".toList (.base 0)) [[("a".toList, "1")]] [] = .ok [(".".toList, "1")] ∧
+    rGet (.pre "a".toList (.base 0)) [[("a".toList, "1")]] ".".toList = .error .root := by decide
+
+/-- For a proper path a composite get/stat finds an object, reports not-exist, or — only below
+    a union — reports the path as present in several members: no other outcome. -/
+theorem get_is_found_missing_or_duplicate (e : BExpr) (he : e.WF) (bs : Bases) (k : Key)
+    (hk : AllProper k) (hne : k ≠ []) :
+    (∃ c, rGet e bs (renderKey k) = .ok c) ∨ rGet e bs (renderKey k) = .error .notExist ∨
+      rGet e bs (renderKey k) = .error .multiple :=
+  rGet_key_cases e he bs hk hne
+
+/-- Equivalent spellings through every composite. -/
+theorem spelling_irrelevant_composite (e : BExpr) (bs : Bases) (s₁ s₂ : Str)
+    (h : normalizeAndValidate s₁ = normalizeAndValidate s₂) :
+    rGet e bs s₁ = rGet e bs s₂ ∧ rWalk e bs s₁ = rWalk e bs s₂ :=
+  ⟨rGet_spelling e bs s₁ s₂ h, rWalk_spelling e bs s₁ s₂ h⟩
+
+example : normalizeAndValidate "a//x".toList = normalizeAndValidate "./a/q/../x/".toList := by decide
+
+/-- Equivalent spellings denote the same object (not a mere congruence): EVERY path string that
+    denotes the key `k` (`keyOf s = ok k`: after normalisation and validation) behaves, in every
+    memory-bucket operation and through every composite, exactly like the canonical rendering
+    of `k`.  So two spellings with the same key are interchangeable, and the key alone decides. -/
+theorem spelling_denotes_key (s : Str) (k : Key) (h : keyOf s = .ok k) (m : Mem) (c : Content)
+    (e : BExpr) (bs : Bases) :
+    memStep m (.get s) = memStep m (.get (renderKey k)) ∧
+    memStep m (.put s c) = memStep m (.put (renderKey k) c) ∧
+    memStep m (.delete s) = memStep m (.delete (renderKey k)) ∧
+    memStep m (.deleteAll s) = memStep m (.deleteAll (renderKey k)) ∧
+    memStep m (.walk s) = memStep m (.walk (renderKey k)) ∧
+    rGet e bs s = rGet e bs (renderKey k) ∧ rWalk e bs s = rWalk e bs (renderKey k) := by
+  obtain ⟨hk, hnv⟩ := keyOf_ok h
+  have heq : normalizeAndValidate s = normalizeAndValidate (renderKey k) := by
+    rw [hnv, validate_renderKey hk]
+  obtain ⟨h1, h2, h3, h4, h5⟩ := spelling_irrelevant m s (renderKey k) heq c
+  exact ⟨h1, h2, h3, h4, h5, rGet_spelling e bs _ _ heq, rWalk_spelling e bs _ _ heq⟩
+
+example : keyOf "./a/q/../x/".toList = .ok ["a".toList, "x".toList] := by decide
+
+/-- Get through prefix views, both directions (audit: completeness / not-exist): for any path
+    that validates to a non-root key `kq`, get through ANY nesting of prefix views is `ok c`
+    exactly when the base bucket stores `c` at (view root ++ kq), and `not-exist` otherwise. -/
+theorem prefix_view_get_complete (ls : List KLayer) (hls : KLayersOK ls) (hpre : PreOnly ls) (m : Mem)
+    (path : Str) (kq : Key) (hkq : AllProper kq) (hne : kq ≠ [])
+    (hnv : normalizeAndValidate path = .ok (renderKey kq)) :
+    vGet (ls.map KLayer.toLayer) m path =
+      (match m.find (renderKey (fullKey ls ++ kq)) with
+        | some c => .ok c
+        | none => .error .notExist) :=
+  vGet_pre_complete ls hls hpre m path kq hkq hne hnv
+
+/-- mapView_abs: a prefix view over any composite is the sub-map below the prefix. -/
+theorem prefix_view_abs (b : BExpr) (bs : Bases) (p k : Key) (hp : AllProper p) (hk : AllProper k)
+    (hne : k ≠ []) : absE (.pre (renderKey p) b) bs k = absE b bs (p ++ k) :=
+  absE_pre b bs hp hk hne
+
+/-- filterView_abs: a filtered view is the restriction of the map to the matching paths. -/
+theorem filter_view_abs (f : Matcher) (b : BExpr) (bs : Bases) (k : Key) (hk : AllProper k) :
+    absE (.filt f b) bs k = if f.matches (renderKey k) then absE b bs k else none :=
+  absE_filt f b bs hk
+
+/-- An overlay is the left-biased union of the members' maps. -/
+theorem overlay_abs (a b : BExpr) (bs : Bases) (k : Key) (he : a.WF) (hk : AllProper k) (hne : k ≠ [])
+    (hm : rGet a bs (renderKey k) ≠ .error .multiple) :
+    absE (.overlay a b) bs k = (match absE a bs k with | some c => some c | none => absE b bs k) :=
+  absE_overlay a b bs k hm he hk hne
+
+/-- A union is the DISJOINT union of the members' maps; a key present in both is reported. -/
+theorem union_abs (a b : BExpr) (bs : Bases) (k : Key) (ha : a.WF) (hb : b.WF) (hk : AllProper k) (hne : k ≠ [])
+    (hma : rGet a bs (renderKey k) ≠ .error .multiple) (hmb : rGet b bs (renderKey k) ≠ .error .multiple) :
+    absE (.multi a b) bs k =
+      (match absE a bs k, absE b bs k with
+        | some c, none => some c
+        | none, some c => some c
+        | _, _ => none) ∧
+    ((absE a bs k).isSome → (absE b bs k).isSome → rGet (.multi a b) bs (renderKey k) = .error .multiple) :=
+  absE_multi a b bs k ha hb hk hne hma hmb
+
+/-- storage.StripReadBucketExternalPaths changes no path and no content: get and walk are those
+    of the wrapped bucket (it only rewrites ExternalPath metadata, which the model — objects are
+    (path, content) — does not carry; the harness checks ExternalPath == Path on the real one). -/
+theorem strip_external_paths_is_identity (b : BExpr) (bs : Bases) (s : Str) :
+    rGet (.strip b) bs s = rGet b bs s ∧ rWalk (.strip b) bs s = rWalk b bs s := by
+  simp only [rGet, rWalk, and_self]
+
+/-! ### Copy -/
+
+/-- copy_is_map_union, for an ARBITRARY composite source: if `storage.Copy(e, target)` succeeds
+    then the target holds, at every key, the object `Get` finds in the source if there is one,
+    else what it held before; every other base is untouched; the invariants are kept; the count
+    is the number of objects the source walk listed. -/
+theorem copy_is_map_union (e : BExpr) (he : e.WF) (bs : Bases) (hbs : BasesOK bs) (t n : Nat)
+    (bs' : Bases) (h : rCopy e bs t = .ok (n, bs')) :
+    (∃ objs, rWalk e bs [] = .ok objs ∧ n = objs.length) ∧
+    (∀ j, j ≠ t → bs'.get j = bs.get j) ∧ KeysValid (bs'.get t) ∧ NodupKeys (bs'.get t) ∧
+    ∀ k : Key, AllProper k → k ≠ [] →
+      abs (bs'.get t) k = (match absE e bs k with | some c => some c | none => abs (bs.get t) k) := by
+  obtain ⟨⟨objs, h1, h2, _⟩, h3, h4, h5, h6⟩ := rCopy_spec e he bs hbs t n bs' h
+  refine ⟨⟨objs, h1, h2⟩, h3, h4, h5, ?_⟩
+  intro k hk hne
+  unfold abs absE
+  rw [h6 k hk hne]
+  cases rGet e bs (renderKey k) <;> rfl
+
+/-- … and the copy does succeed whenever the source walk succeeds and does not report the view
+    root "." as an object. -/
+theorem copy_succeeds (e : BExpr) (he : e.WF) (bs : Bases) (hbs : BasesOK bs) (t : Nat)
+    (objs : List (Str × Content)) (hw : rWalk e bs [] = .ok objs) (hroot : ∀ c, (dot, c) ∉ objs) :
+    ∃ bs', rCopy e bs t = .ok (objs.length, bs') :=
+  rCopy_succeeds e he bs hbs t objs hw hroot
+
+/-- copy_into_empty (formerly mis-named `untar_tar`): `storage.Copy` of a memory bucket into an
+    empty one reproduces the source exactly, as a map. -/
+theorem copy_into_empty (src : Mem) (hv : KeysValid src) (hn : NodupKeys src) :
+    ∃ n bs', rCopy (.base 0) [src, []] 1 = .ok (n, bs') ∧ n = src.length ∧
+      ∀ k : Key, AllProper k → k ≠ [] → abs (bs'.get 1) k = abs src k := by
+  have hbs : BasesOK [src, []] := basesOK_pair hv hn keysValid_nil (by simp [NodupKeys])
+  have hroot : ∀ c, (dot, c) ∉ src := by
+    intro c hin
+    obtain ⟨k, hk, hne, hk1⟩ := hv _ hin
+    exact renderKey_ne_dot hk hne hk1.symm
+  obtain ⟨bs', hcp⟩ := copy_succeeds (.base 0) trivial _ hbs 1 src (walk_all_mem src _) hroot
+  obtain ⟨_, _, _, _, hall⟩ := copy_is_map_union (.base 0) trivial _ hbs 1 _ bs' hcp
+  refine ⟨src.length, bs', hcp, rfl, ?_⟩
+  intro k hk hne
+  rw [hall k hk hne, absE_base 0 _ hk hne]
+  simp only [Bases.get, List.getD_cons_zero, abs]
+  cases Mem.find src (renderKey k) with
   | some c => rfl
-  | none => simp [abs, Mem.find]
+  | none => simp [Mem.find]
+
+/-! ### Archives (entry-level model BufModel/Archive.lean) -/
+
+/-- Tar / Zip of any composite: one regular entry per walked object, name = path, content = the
+    walked content (the per-object `Get` of `WalkReadObjects` returns it: Walk/Get coherence),
+    whenever the walk succeeds and does not report the view root "." … -/
+theorem tar_lists_walked_objects (e : BExpr) (he : e.WF) (bs : Bases) (hbs : BasesOK bs)
+    (objs : List (Str × Content)) (hw : rWalk e bs [] = .ok objs) (hroot : ∀ c, (dot, c) ∉ objs) :
+    tarOf e bs = .ok (entriesOf objs) :=
+  tarOf_eq_walk e he bs hbs objs hw hroot
+
+/-- … and a Tar / Zip that succeeds has exactly that shape (a reported "." makes it fail). -/
+theorem tar_ok_only_proper_paths (e : BExpr) (he : e.WF) (bs : Bases) (hbs : BasesOK bs) (a : Archive)
+    (h : tarOf e bs = .ok a) :
+    ∃ objs, rWalk e bs [] = .ok objs ∧ KeysValid objs ∧ NodupKeys objs ∧ a = entriesOf objs :=
+  tarOf_ok e he bs hbs a h
+
+/-- untar_tar (audit S1): for every memory bucket `m` (invariants `KeysValid`, `NodupKeys`) without
+    "._"-named objects, Tar (resp. Zip) of `m` followed by Untar (resp. Unzip) into the EMPTY
+    bucket, strip-components 0 and no matcher, never fails and yields a bucket equal to `m` as a
+    map.  (`fmt` = tar or zip: the two extraction loops differ in the order of their checks.)
+    The `NoApple` hypothesis is needed: `untar_tar_drops_apple_files_counterexample`. -/
+theorem untar_tar (fmt : Fmt) (m : Mem) (hv : KeysValid m) (hn : NodupKeys m) (hna : NoApple m) :
+    ∃ a m', tarOfMem m = .ok a ∧ extractInto fmt 0 (fun _ => true) 0 a [] = (none, m') ∧
+      ∀ k : Str, Mem.find m' k = Mem.find m k := by
+  obtain ⟨m', h1, h2⟩ := extract_entriesOf fmt 0 (fun _ => true) m hv hna []
+  rw [stripObjs_zero_all] at h2
+  obtain ⟨m2, hm2, hfind⟩ := putAll_spec m hv hn []
+  rw [h2] at hm2; injection hm2 with hm2; subst hm2
+  refine ⟨entriesOf m, m', tarOfMem_eq m hv hn, h1, ?_⟩
+  intro k; rw [hfind k]
+  cases Mem.find m k with
+  | some c => rfl
+  | none => simp [Mem.find]
+
+/-- As coded, Untar/Unzip skip every entry whose base name starts with "._" (macOS extended
+    attribute files; "a reasonable compromise" says the source) although Tar/Zip write them: the
+    round trip LOSES such objects.  Hence the `NoApple` hypothesis above. -/
+theorem untar_tar_drops_apple_files_counterexample :
+    tarOfMem [("a/._x".toList, "1")] = .ok [{ name := "a/._x".toList, content := "1", kind := .reg }] ∧
+    untarInto [{ name := "a/._x".toList, content := "1", kind := .reg }] 0 (fun _ => true) [] = (none, []) ∧
+    unzipInto [{ name := "a/._x".toList, content := "1", kind := .reg }] 0 (fun _ => true) [] = (none, []) := by
+  decide
+
+/-- untar_tar with strip-components `n` and a path matcher: the extraction never fails and the
+    result is the map of the stripped, matching objects — archive order, a later object wins
+    when two names collide after stripping; the image is explicit: an object at key `kk` lands at
+    `kk.drop n` when `n = 0` or `kk` has more than `n` components, and is skipped otherwise. -/
+theorem untar_tar_strip (fmt : Fmt) (n : Nat) (f : Str → Bool) (m : Mem) (hv : KeysValid m)
+    (hn : NodupKeys m) (hna : NoApple m) :
+    ∃ a m', tarOfMem m = .ok a ∧ extractInto fmt n f 0 a [] = (none, m') ∧
+      (∀ k : Str, Mem.find m' k = Mem.find (stripObjs n f m).reverse k) ∧
+      (∀ (p : Str) (c : Content), (p, c) ∈ stripObjs n f m ↔
+        ∃ kk : Key, AllProper kk ∧ kk ≠ [] ∧ (renderKey kk, c) ∈ m ∧ (n = 0 ∨ n < kk.length) ∧
+          p = renderKey (kk.drop n) ∧ f p = true) := by
+  obtain ⟨m', h1, h2⟩ := extract_entriesOf fmt n f m hv hna []
+  obtain ⟨m2, hm2, hfind⟩ := putAll_last_wins (stripObjs n f m) (keysValid_stripObjs n f hv) []
+  rw [h2] at hm2; injection hm2 with hm2; subst hm2
+  refine ⟨entriesOf m, m', tarOfMem_eq m hv hn, h1, ?_, mem_stripObjs n f m hv⟩
+  intro k; rw [hfind k]
+  cases Mem.find (stripObjs n f m).reverse k with
+  | some c => rfl
+  | none => simp [Mem.find]
+
+/-- The usual use of strip-components — an archive whose objects all live below one top-level
+    directory chain `p`: stripping `p.length` components yields exactly the sub-tree below `p`,
+    re-keyed relative to it. -/
+theorem untar_tar_strip_prefix (fmt : Fmt) (p : Key) (hp : AllProper p) (m : Mem) (hv : KeysValid m)
+    (hn : NodupKeys m) (hna : NoApple m)
+    (hall : ∀ kv ∈ m, ∃ kk : Key, AllProper kk ∧ kk ≠ [] ∧ kv.1 = renderKey (p ++ kk)) :
+    ∃ a m', tarOfMem m = .ok a ∧ extractInto fmt p.length (fun _ => true) 0 a [] = (none, m') ∧
+      ∀ kk : Key, AllProper kk → kk ≠ [] → Mem.find m' (renderKey kk) = Mem.find m (renderKey (p ++ kk)) := by
+  obtain ⟨m', h1, h2⟩ := extract_entriesOf fmt p.length (fun _ => true) m hv hna []
+  obtain ⟨hnd, hfi⟩ := stripObjs_prefix p hp m hv hn hall
+  obtain ⟨m2, hm2, hfind⟩ := putAll_spec (stripObjs p.length (fun _ => true) m)
+    (keysValid_stripObjs _ _ hv) hnd []
+  rw [h2] at hm2; injection hm2 with hm2; subst hm2
+  refine ⟨entriesOf m, m', tarOfMem_eq m hv hn, h1, ?_⟩
+  intro kk hkk hne
+  rw [hfind, hfi kk hkk hne]
+  cases Mem.find m (renderKey (p ++ kk)) with
+  | some c => rfl
+  | none => simp [Mem.find]
+
+/-- untar_tar for an ARBITRARY composite source: whenever Tar/Zip of `e` succeeds and wrote no
+    "._"-named entry, extracting it into the empty bucket yields exactly the composite's map
+    `absE e bs` (what `Get` finds through `e`). -/
+theorem untar_tar_composite (fmt : Fmt) (e : BExpr) (he : e.WF) (bs : Bases) (hbs : BasesOK bs)
+    (a : Archive) (h : tarOf e bs = .ok a)
+    (hna : ∀ en ∈ a, applePrefix.isPrefixOf (base en.name) = false) :
+    ∃ m', extractInto fmt 0 (fun _ => true) 0 a [] = (none, m') ∧
+      ∀ k : Key, AllProper k → k ≠ [] → abs m' k = absE e bs k := by
+  obtain ⟨objs, hw, hvo, hno, ha⟩ := tarOf_ok e he bs hbs a h
+  subst ha
+  have hna' : NoApple objs := by
+    intro kv hkv
+    exact hna { name := kv.1, content := kv.2, kind := .reg } (List.mem_map.mpr ⟨kv, hkv, rfl⟩)
+  obtain ⟨m', h1, h2⟩ := extract_entriesOf fmt 0 (fun _ => true) objs hvo hna' []
+  rw [stripObjs_zero_all] at h2
+  obtain ⟨m2, hm2, hfind⟩ := putAll_spec objs hvo hno []
+  rw [h2] at hm2; injection hm2 with hm2; subst hm2
+  obtain ⟨kq, hkq, hnv, hiff⟩ := rWalk_lists_absE e he bs hbs [] objs hw
+  have hkq0 : kq = [] :=
+    renderKey_inj_of_validate hkq allProper_nil hnv (by decide)
+  subst hkq0
+  refine ⟨m', h1, ?_⟩
+  intro k hk hne
+  unfold abs
+  rw [hfind]
+  cases hf : Mem.find objs (renderKey k) with
+  | some c =>
+    exact (((hiff k c hk hne).mp (find_some_mem hf)).2).symm
+  | none =>
+    simp only [Mem.find]
+    cases hab : absE e bs k with
+    | none => rfl
+    | some c =>
+      have := (mem_iff_find hno _ _).mp ((hiff k c hk hne).mpr ⟨List.nil_prefix, hab⟩)
+      rw [hf] at this; cases this
+
+/-- The real memory bucket walks in sorted path order; the driver therefore tars the bases in
+    sorted order (`tarOfSorted`).  Order is irrelevant to the result as a map: the round trip of
+    the sorted archive still yields exactly the composite's map over the ORIGINAL bases. -/
+theorem untar_tar_sorted_composite (fmt : Fmt) (e : BExpr) (he : e.WF) (bs : Bases) (hbs : BasesOK bs)
+    (a : Archive) (h : tarOfSorted e bs = .ok a)
+    (hna : ∀ en ∈ a, applePrefix.isPrefixOf (base en.name) = false) :
+    ∃ m', extractInto fmt 0 (fun _ => true) 0 a [] = (none, m') ∧
+      ∀ k : Key, AllProper k → k ≠ [] → abs m' k = absE e bs k := by
+  obtain ⟨m', h1, h2⟩ := untar_tar_composite fmt e he (bs.map sortMem) (basesOK_sorted hbs) a h hna
+  refine ⟨m', h1, ?_⟩
+  intro k hk hne
+  rw [h2 k hk hne]
+  simp only [absE, rGet_sorted e bs hbs]
+
+/-! ### What the correspondence driver runs for disk-backed composites -/
+
+open BufModel.Disk in
+/-- The driver runs the STREAMING walk `rWalkD` (objects are handed to the caller as visited; the
+    first error — a failing member or the union's duplicate check — stops it; BufModel/Disk.lean).
+    Whenever it completes, with any mix of disk bases, it has visited exactly the list `rWalk`
+    computes — so `walk_get_coherent` applies to every successful walk the driver prints. -/
+theorem walkD_ok_is_walk (flags : List Bool) (e : BExpr) (bs : Bases) (pfx : Str)
+    (objs : List (Str × Content)) (h : rWalkD flags e bs pfx = (objs, none)) : rWalk e bs pfx = .ok objs :=
+  rWalkD_ok flags e bs pfx objs h
+
+open BufModel.Disk in
+/-- With all flags false (no disk base) `rWalkD` equals `rWalk` on every successful walk: the
+    streaming walk completes exactly when `rWalk` succeeds, with the same list.  (When the walk
+    fails the two may name different errors only if two different errors compete, which needs a
+    disk base's ENOTDIR; error classes are compared by the correspondence run.) -/
+theorem walkD_all_memory_is_walk (flags : List Bool) (hf : ∀ i, flags.getD i false = false) (e : BExpr)
+    (bs : Bases) (pfx : Str) (objs : List (Str × Content)) :
+    rWalkD flags e bs pfx = (objs, none) ↔ rWalk e bs pfx = .ok objs :=
+  ⟨rWalkD_ok flags e bs pfx objs, rWalkD_of_rWalk_ok flags hf e bs pfx objs⟩
+
+open BufModel.Disk in
+/-- Why the driver needs the streaming walk: in `multi(x, multi(y, z))` a path of `y` already
+    seen in `x` is reported as duplicate before the disk bucket `z` is walked below a file. -/
+theorem streaming_walk_error_order_counterexample :
+    rWalkD [false, true] (.multi (.base 0) (.multi (.base 0) (.base 1)))
+        [[("c/d/f".toList, "1")], [("c/d".toList, "2")]] "c/d/f".toList = ([("c/d/f".toList, "1")], some .multiple) ∧
+    rWalkD [false, true] (.multi (.base 0) (.base 1))
+        [[("c/d/f".toList, "1")], [("c/d".toList, "2")]] "c/d/f".toList = ([("c/d/f".toList, "1")], some .other) := by
+  decide
+
+open BufModel.Disk in
+/-- The copy the driver runs (walk for the paths, `Get` per path as `copyPaths` /
+    `WalkReadObjects` do, put on a memory or disk target) refines `rCopy`: whenever it succeeds,
+    count and resulting object map are those of `rCopy` — so `copy_is_map_union` applies. -/
+theorem copyD_refines_copy (flags : List Bool) (e : BExpr) (he : e.WF) (bs : Bases) (hbs : BasesOK bs)
+    (t : Nat) (isDisk : Bool) (d0 d' : Disk) (n : Nat) (ht : bs.get t = d0.files)
+    (h : copyD flags e bs isDisk d0 = .ok (n, d')) :
+    rCopy e bs t = .ok (n, bs.set t d'.files) :=
+  copyD_refines_rCopy flags e he bs hbs t isDisk d0 d' n ht h
 
 /-! ### The disk bucket (a file tree) refines the same map on prefix-free histories -/
 
@@ -465,11 +762,47 @@ theorem disk_differs_without_prefix_freedom :
     (diskRun BufModel.Disk.empty [.put "a".toList "1", .put "a/b".toList "2"]).2 ≠
       (memRun [] [.put "a".toList "1", .put "a/b".toList "2"]).2 := by decide
 
--- non-vacuity: a concrete history with awkward spellings, run through the model
-example : (memRun [] [.put "a//x".toList "1", .put "./b".toList "2", .deleteAll "a/.".toList, .get "b/".toList]).2.length = 4 := by
+-- non-vacuity: a concrete history with awkward spellings, run through the model: the FULL output
+example : (memRun [] [.put "a//x".toList "1", .put "./b".toList "2", .walk "".toList, .deleteAll "a/.".toList,
+      .get "b/".toList, .get "a/x".toList, .delete "../b".toList, .put ".".toList "3"]) =
+    ([("b".toList, "2")],
+     [.done, .done, .objs [("b".toList, "2"), ("a/x".toList, "1")], .done, .content "2", .err .notExist,
+      .err .outsideContext, .err .root]) := by
   decide
 example : KeysValid [("a/x".toList, "1")] := by
   intro kv h; simp at h; subst h
   exact ⟨["a".toList, "x".toList], by intro n hn; simp at hn; rcases hn with rfl | rfl <;> decide, by simp, by decide⟩
+
+-- non-vacuity of walk_get_coherent / copy_is_map_union / untar_tar_composite: a composite using
+-- every combinator, well-formed, whose walk, get, copy and tar succeed with non-empty results
+def exE : BExpr :=
+  .overlay (.pre "a".toList (.filt (.ext ".proto".toList) (.base 0)))
+    (.strip (.multi (.base 1) (.pre ".".toList (.base 2))))
+def exBs : Bases := [[("a/x.proto".toList, "1"), ("a/y".toList, "2")], [("x.proto".toList, "3"), ("z".toList, "4")],
+  [("w/v".toList, "5")]]
+example : exE.WF := by
+  refine ⟨⟨⟨["a".toList], ?_, by decide⟩, trivial⟩, ⟨trivial, ⟨⟨[], allProper_nil, by decide⟩, trivial⟩⟩⟩
+  intro n hn; simp at hn; subst hn; decide
+example : rWalk exE exBs [] = .ok [("x.proto".toList, "1"), ("z".toList, "4"), ("w/v".toList, "5")] := by decide
+example : rGet exE exBs "x.proto".toList = .ok "1" ∧ rGet exE exBs "w/./v".toList = .ok "5" ∧
+    rGet exE exBs "y".toList = .error .notExist := by decide
+example : (rCopy exE exBs 3).map (fun r => (r.1, r.2.get 3)) =
+    .ok (3, [("w/v".toList, "5"), ("z".toList, "4"), ("x.proto".toList, "1")]) := by decide
+example : (tarOf exE exBs).map (fun a => a.map (fun en => (en.name, en.content))) =
+    .ok [("x.proto".toList, "1"), ("z".toList, "4"), ("w/v".toList, "5")] := by decide
+-- strip-components 1 on a one-directory archive, a hostile entry aborting, a directory entry skipped
+example : untarInto [{ name := "top/a".toList, content := "1", kind := .reg },
+      { name := "top/d/".toList, content := "", kind := .dir },
+      { name := "top/d/b".toList, content := "2", kind := .reg }] 1 (fun _ => true) [] =
+    (none, [("d/b".toList, "2"), ("a".toList, "1")]) := by decide
+example : unzipInto [{ name := "ok".toList, content := "1", kind := .reg },
+      { name := "../evil".toList, content := "2", kind := .reg }] 0 (fun _ => true) [] =
+    (some .outsideContext, [("ok".toList, "1")]) := by decide
+-- the two loops differ: a hostile "._" name is skipped by Untar, rejected by Unzip
+example : untarInto [{ name := "../._x".toList, content := "1", kind := .reg }] 0 (fun _ => true) [] = (none, []) ∧
+    unzipInto [{ name := "../._x".toList, content := "1", kind := .reg }] 0 (fun _ => true) [] =
+      (some .outsideContext, []) := by decide
+example : NoApple [("a/x".toList, "1")] := by
+  intro kv h; simp at h; subst h; decide
 
 end BufProofs.C14
